@@ -121,3 +121,33 @@ def _(self: Union[_SEGOBJ(SegmentKeyBlob), _SEGOBJ(SegmentKeyStore), _SEGOBJ(Seg
     ensures(not self.not_parsed, label="marked-parsed")
     modifies(self.raw_block, self.not_parsed)
     sample_with(lambda rnd: _mk_seg(rnd))
+
+
+# ---- length of the image and of the boot header: where the last present segment ends / where the application starts -----------------------------------
+inline("spsdk.image.bootable_image.bimg:BootableImage.segments", "spsdk.image.bootable_image.segments:Segment.is_present", "specs.bimg:AbsSeg.export",
+       "specs.bimg:AbsSeg.__len__")
+
+
+def SEGP(static, present):
+    return Obj(AbsSeg, full_image_offset=Range(0, 1 << 30) if static else Range(-4, -1), OFFSET_ALIGNMENT=OneOf(1, 4, 1024), _len=Range(1, 1 << 24) if present else Range(0, 1 << 24),
+               excluded=Const(False), BOOT_HEADER=bool)
+
+
+S3L = Obj(BootableImage, _segments=ListOf(Union[SEGP(True, True), SEGP(False, True)], 3), _init_offset=Range(0, 1 << 20))
+
+
+def _mk_len(rnd):
+    d = _mk(rnd)
+    for s in d["self"]._segments:
+        s._len = max(s._len, 1)
+        s.BOOT_HEADER = rnd.random() < 0.5
+    return {"self": d["self"]}
+
+
+@contract("spsdk.image.bootable_image.bimg:BootableImage.__len__", split=3)
+def _(self: S3L) -> int:
+    # three present segments (the last one fixed or floating): the image ends where the last segment ends
+    requires(self._segments[0].full_image_offset >= 0)
+    returns(place(self._segments, 2) - self._init_offset + self._segments[2]._len, label="end-of-the-last-segment")
+    pure()
+    sample_with(lambda rnd: _mk_len(rnd))
